@@ -1843,10 +1843,12 @@ def run(ctx):
                         'containing the separator', 'crash-atomicity of open(path, "w") is outside the property']
     facts, _ = repo_paths.generate()
     ctx.extra['translator_notes'] = facts['notes']
+    segs, _ = repo_paths.generate_writes()
+    ctx.extra['write_segments'] = {n: st for n, st in segs}
     # generic theory (any tables), then the obligations on the tables generated from the current source, one module each
     # so that a violated table obligation does not hide the others
     cmds, ok_mod = [], {}
-    for mod in ('C06', 'C06Table', 'C06TableAdd', 'C06TableRoot', 'C06TableAll', 'C06TablePec', 'C06TableEnc'):
+    for mod in ('C06', 'C06Table', 'C06TableAdd', 'C06TableRoot', 'C06TableAll', 'C06TablePec', 'C06TableEnc', 'C06Write'):
         ok_mod[mod] = ctx.lean_check(['Cherab.Props.' + mod], 'Cherab/Audit/%s.lean' % mod)
         cmds.append(ctx.checker_cmd)
     ctx.checker_cmd = ' ; '.join(cmds)
@@ -1928,7 +1930,8 @@ def run(ctx):
     # K: all histories through the driver in one go
     lines = [l for _, h in runs for l in h.lines]
     enc = encode_stream(ctx, rng)
-    outs = ctx.driver(lines + ['wf'] + [e[0] for e in enc])
+    wseg = write_segment_stream(ctx, segs)
+    outs = ctx.driver(lines + ['wf'] + [e[0] for e in enc] + [e[0] for e in wseg])
     ctx.extra['seconds']['driver'] = round(time.time() - t0, 1)
     pos = 0
     for label, h in runs:
@@ -1944,6 +1947,13 @@ def run(ctx):
         if out != hexs(real):
             ctx.disagreements += 1
             ctx.broke('correspondence', 'C06 encode_transition stream', dict(line=line, model=out, implementation=real))
+    pos += len(enc)
+    for (line, real, what), out in zip(wseg, outs[pos:]):
+        ctx.traces += 1
+        if out.split()[:2] != real.split():
+            ctx.disagreements += 1
+            ctx.broke('correspondence', 'C06 write-segment stream (Model/RepoWrite vs the writers)',
+                      dict(line=line, call=what, model=out, implementation=real))
 
 
 def _brief(op):
@@ -1951,6 +1961,69 @@ def _brief(op):
     if 'entries' in op:
         o['paths'] = [p for p, _ in op['entries']]
     return o
+
+
+def write_segment_stream(ctx, segs):
+    """K for Model/RepoWrite.lean: every writer of the generated table, on a file that already holds a rate, is called with
+    (none) a good rate, (validate) a rate one conversion of which raises, (json) a rate with an entry JSON cannot serialise;
+    observed: returned / raised, and the stored file unchanged / replaced by valid JSON / left invalid.  The model runs the
+    statement sequence the translator read off the source with the first statement of that kind raising."""
+    from cherab.openadas import repository
+    C, D, H = species('carbon'), species('deuterium'), species('hydrogen')
+    recipes = {
+        'atomic.py:_update_and_write_adf11': ('adf11', lambda r, R: repository.add_ionisation_rate(C, 1, r, repository_path=R)),
+        'radiated_power.py:_update_and_write_adf11': ('adf11', lambda r, R: repository.add_line_power_rate(C, 1, r, repository_path=R)),
+        'pec.py:update_pec_rates': ('pec', lambda r, R: repository.add_pec_excitation_rate(C, 1, (3, 2), r, repository_path=R)),
+        'pec.py:update_pec_thermal_cx_rates': ('pec3', lambda r, R: repository.add_pec_thermal_cx_rate(H, 0, C, 1, (3, 2), r, repository_path=R)),
+        'wavelength.py:update_wavelengths': ('wl', lambda r, R: repository.add_wavelength(C, 1, (3, 2), r, repository_path=R)),
+        'beam/cx.py:update_beam_cx_rates': ('bcx', lambda r, R: repository.add_beam_cx_rate(D, 1, C, 6, (8, 7), r, repository_path=R)),
+        'beam/emission.py:update_beam_emission_rates': ('beam', lambda r, R: repository.add_beam_emission_rate(D, C, 6, (3, 2), r, repository_path=R)),
+        'beam/stopping.py:add_beam_stopping_rate': ('beam', lambda r, R: repository.add_beam_stopping_rate(D, C, 6, r, repository_path=R)),
+        'beam/population.py:add_beam_population_rate': ('beam', lambda r, R: repository.add_beam_population_rate(D, 1, C, 6, r, repository_path=R)),
+    }
+    out = []
+    for name, _steps in segs:
+        if name not in recipes:
+            ctx.count('write-segment:no-recipe:' + name)
+            continue
+        layout, call = recipes[name]
+        for kind in ('none', 'validate', 'json'):
+            if layout == 'wl' and kind == 'json':
+                continue
+            R = tempfile.mkdtemp(prefix='c06W_')
+            try:
+                if _status(lambda: call(mk_rate(layout, 1.0, (2, 2, 2)), R)) != 'ok':
+                    ctx.broke('correspondence', 'C06 write-segment stream: set-up call rejected', dict(writer=name))
+                    continue
+                files = [os.path.join(r, f) for r, _, fs in os.walk(R) for f in fs]
+                if len(files) != 1:
+                    ctx.broke('correspondence', 'C06 write-segment stream: set-up call wrote %d files' % len(files), dict(writer=name))
+                    continue
+                before = open(files[0], 'rb').read()
+                rate = mk_rate(layout, 2.0, (2, 2, 2))
+                if kind == 'validate':
+                    rate = 'not-a-number' if layout == 'wl' else dict(rate, **{sorted(k for k in rate if isinstance(rate[k], list))[0]: 'abc'})
+                elif kind == 'json':
+                    rate = dict(rate, extra={1, 2})
+                st = _status(lambda: call(rate, R))
+                after = open(files[0], 'rb').read()
+                try:
+                    json.loads(after.decode())
+                    state = 'old' if after == before else 'new'
+                except ValueError:
+                    state = 'truncated'
+                if state == 'truncated':
+                    ctx.fail('C06:%s:file-left-invalid-json:write-segment-%s' % (name.split(':')[1], kind),
+                             '%s on a stored file with a %s failure -> %s, file is no longer JSON' % (name, kind, st),
+                             dict(writer=name, kind=kind))
+                ctx.case(key=('wseg', name, kind, st, state))
+                # the oracle "which statement raises" is an input of the model: an entry JSON cannot serialise makes a
+                # statement raise only where the caller's dictionary itself is serialised; if the call returned, none did
+                sent = kind if st != 'ok' else 'none'
+                out.append(('wseg %s %s' % (hexs(name), sent), '%s %s' % ('ok' if st == 'ok' else 'err', state), '%s/%s -> %s' % (name, kind, st)))
+            finally:
+                shutil.rmtree(R, ignore_errors=True)
+    return out
 
 
 def encode_stream(ctx, rng):
